@@ -160,7 +160,9 @@ func halfPipe(src net.Conn, dst net.Conn,
 	buf := make([]byte, 32*1024)
 	for {
 		nr, er := src.Read(buf)
-		if nr > 0 {
+		// net.ErrClosed means this end was closed locally, i.e. the other direction is tearing the
+		// tunnel down and has closed dst as well: there is nowhere left to forward to.
+		if nr > 0 && !errors.Is(er, net.ErrClosed) {
 			if nr > len(buf) && er == nil {
 				log.Errorf("unexpected read len error - up:%t (%dB)", isUpload, nr)
 			}
